@@ -3,11 +3,12 @@
 checks of the given properties, undo the patch, print a one-line verdict per property."""
 import subprocess, sys, os, json, time
 VERIF = os.path.dirname(os.path.dirname(os.path.abspath(__file__)))
+REPO = os.environ.get('PPP_REPO', '/repo')
 sid = sys.argv[1]
 props = sys.argv[2:]
 patch = os.path.join(VERIF, 'seeded', sid, 'patch.diff')
-assert subprocess.run(['git', '-C', '/repo', 'status', '--porcelain', '--', 'src'], capture_output=True, text=True).stdout.strip() == '', '/repo not clean'
-subprocess.run(['git', '-C', '/repo', 'apply', patch], check=True)
+assert subprocess.run(['git', '-C', REPO, 'status', '--porcelain', '--', 'src'], capture_output=True, text=True).stdout.strip() == '', '/repo not clean'
+subprocess.run(['git', '-C', REPO, 'apply', patch], check=True)
 res = {}
 try:
     for p in props:
@@ -22,8 +23,8 @@ try:
         res[p if tier == 'quick' else p + ':' + tier] = {'exit': r.returncode, 'wall_s': round(time.time() - t0), 'lines': lines[:6]}
         print(sid, p, 'exit=%d' % r.returncode, '%ds' % (time.time() - t0), '|', ' || '.join(lines[:3])[:400], flush=True)
 finally:
-    subprocess.run(['git', '-C', '/repo', 'checkout', '--', '.'], check=True)
-out = os.path.join(VERIF, 'seeded', sid, 'check_results.json')
+    subprocess.run(['git', '-C', REPO, 'checkout', '--', '.'], check=True)
+out = os.path.join(os.environ.get('SEED_RESULTS_ROOT', VERIF), 'seeded', sid, 'check_results.json')
 old = json.load(open(out)) if os.path.exists(out) else {}
 old.update(res)
 json.dump(old, open(out, 'w'), indent=1)
